@@ -6,4 +6,5 @@ CONSTANTS
   Known <- AllKnown
   Msgs <- AllMsgs
   MaxMsgs = 5
-INVARIANTS TypeOK OnlyVerifiedShares OnlyKnownSenders OwnShareKept AtMostThreshold SubmitsGroupSignature NothingBeforeThreshold
+INVARIANTS TypeOK OnlyVerifiedShares OnlyKnownSenders OwnShareKept AtMostThreshold SubmitsGroupSignature UsedSharesVerify NothingBeforeThreshold
+PROPERTIES SharesStable
